@@ -709,7 +709,7 @@ def run(ctx):
         else:
             todo.append(c)
     todo += f5_family(rng, ctx.n(60, 600))
-    for _ in range(ctx.n(700, 8000)):
+    for _ in range(ctx.n(700, 6000)):
         conf = gen_conf(rng)
         todo.append((conf, gen_schedule(rng, len(conf['contenders']), rng.choice([10, 20, 30, 40, 60])), 'random'))
     if not ctx.quick:
@@ -724,7 +724,7 @@ def run(ctx):
 
         def sem3():
             return make_conf('sem', [{'n': 2, 'rm': False, 'timeout': 30, 'program': ['lock', 'unlock']} for _ in range(3)])
-        todo += list(exhaustive(2, 12, two))
+        todo += list(exhaustive(2, 11, two))
         todo += list(exhaustive(3, 8, three))
         todo += list(exhaustive(3, 7, sem3))
     else:
